@@ -95,7 +95,8 @@ def signature(primary, ops, created, root):
             side = "mutate-dest" if rf == src else "mutate-source"
         return "proto:freeze-bypass/%s+%s" % (SHARE[o[0]], side)
     if primary == "cyclic-message":
-        return "proto:cyclic-message/" + "+".join(sorted({SHARE[n] for n in names if n in SHARE}))
+        # one owner of a list shared by Message(m) stores the other owner into it
+        return "proto:cyclic-message/" + ("copy-shares-list" if "copy" in names else ",".join(names))
     if primary == "inexact":
         if last[0] in ("setrfrom", "setrmfrom"):
             what = "list" if last[0] == "setrfrom" else "msglist"
@@ -210,7 +211,7 @@ def hist_part(ctx):
             (len(l2only), [o[0] for o in d["ops"]], d["div"]["classes"], (d["div"].get("detail") or [""])[:2]))
     groups = collections.OrderedDict()
     for d in alld:
-        names = [o[0] for o in d["ops"][:d["div"]["step"] + 1]]
+        names = [o[0] + ("@self" if o[2] and o[2] == o[1] else "") for o in d["ops"][:d["div"]["step"] + 1]]
         groups.setdefault("+".join(d["div"]["classes"]) + "/" + ",".join(names), []).append(d)
     reps = []
     for key, ds in groups.items():
